@@ -21,11 +21,26 @@ pub struct RecDest {
     pub log: Vec<String>,
     /// panic (instead of failing) at this call index
     pub panic_at: Option<usize>,
+    /// absolute offset of `content[0]`: a destination that is already `base` bytes long (sparse); `pos` is
+    /// absolute, the log and `rel_pos` are relative to `base`. Anything addressed below `base` is recorded
+    /// (`below`) and logged with its absolute offset.
+    pub base: u64,
+    pub below: bool,
 }
 
 impl RecDest {
+    /// position relative to `base`
+    pub fn rel_pos(&self) -> u64 {
+        self.pos.wrapping_sub(self.base)
+    }
+    /// the same destination, `base` bytes further into a (sparse) file
+    pub fn at_base(mut self, base: u64) -> Self {
+        self.base = base;
+        self.pos += base;
+        self
+    }
     pub fn new(content: Vec<u8>, pos: u64) -> Self {
-        RecDest { content, pos, calls: 0, script: HashMap::new(), snaps: Vec::new(), snap: false, log: Vec::new(), panic_at: None }
+        RecDest { content, pos, calls: 0, script: HashMap::new(), snaps: Vec::new(), snap: false, log: Vec::new(), panic_at: None, base: 0, below: false }
     }
     fn resp(&mut self) -> Resp {
         let k = self.calls;
@@ -54,7 +69,14 @@ impl Write for RecDest {
             Resp::Short(m) => m.min(buf.len()),
             Resp::Ok => buf.len(),
         };
-        let pos = self.pos as usize;
+        if self.pos < self.base {
+            self.below = true;
+            self.log.push(format!("wBELOW{}+{}", self.pos, n));
+            self.pos += n as u64;
+            self.after();
+            return Ok(n);
+        }
+        let pos = (self.pos - self.base) as usize;
         if pos > self.content.len() {
             self.content.resize(pos, 0);
         }
@@ -84,9 +106,14 @@ impl Seek for RecDest {
         match to {
             SeekFrom::Start(n) => self.pos = n,
             SeekFrom::Current(d) => self.pos = (self.pos as i64 + d) as u64,
-            SeekFrom::End(d) => self.pos = (self.content.len() as i64 + d) as u64,
+            SeekFrom::End(d) => self.pos = ((self.base + self.content.len() as u64) as i64 + d) as u64,
         }
-        self.log.push(format!("s{}", self.pos));
+        if self.pos < self.base {
+            self.below = true;
+            self.log.push(format!("sBELOW{}", self.pos));
+        } else {
+            self.log.push(format!("s{}", self.pos - self.base));
+        }
         self.after();
         Ok(self.pos)
     }
